@@ -20,8 +20,16 @@ func (fx *FnCtx) intrinsic(st *State, call *ast.CallExpr) ([]Val, bool) {
 	if o, ok := fx.pkg.Info.Uses[sel.Sel].(*types.Func); ok && o.Pkg() != nil && o.Pkg().Path() == "fmt" {
 		switch o.Name() {
 		case "Fprintf", "Fprintln", "Fprint", "Println", "Print":
-			// output only: arguments are evaluated, nothing in the modelled state changes
-			for _, a := range call.Args {
+			// output only: arguments are evaluated, nothing in the modelled state changes -- except when the
+			// destination is a local bytes.Buffer (a string accumulator): it then holds some new string
+			for i, a := range call.Args {
+				if i == 0 && strings.HasPrefix(o.Name(), "F") {
+					if bv := fx.localBufferVar(a); bv != nil {
+						cur := st.vars[bv]
+						fx.setVar(st, bv, Val{fx.sc.Fresh("written", "Str"), "Str", cur.Ty})
+						continue
+					}
+				}
 				if !call.Ellipsis.IsValid() {
 					fx.eval(st, a)
 				}
@@ -157,4 +165,23 @@ func isPtrExpr(fx *FnCtx, e ast.Expr) bool {
 	}
 	_, ok := derefType(fx.typeOf(e))
 	return ok
+}
+
+// localBufferVar: e is x or &x with x a local variable of type bytes.Buffer (modelled as a string accumulator).
+func (fx *FnCtx) localBufferVar(e ast.Expr) *types.Var {
+	if u, ok := e.(*ast.UnaryExpr); ok && u.Op == token.AND {
+		e = u.X
+	}
+	id, ok := e.(*ast.Ident)
+	if !ok {
+		return nil
+	}
+	o, ok := fx.pkg.Info.Uses[id].(*types.Var)
+	if !ok {
+		return nil
+	}
+	if n, ok := types.Unalias(o.Type()).(*types.Named); ok && n.Obj().Pkg() != nil && n.Obj().Pkg().Path() == "bytes" && n.Obj().Name() == "Buffer" {
+		return o
+	}
+	return nil
 }
